@@ -6,6 +6,7 @@ package main
 
 import (
 	"fmt"
+	"github.com/osteele/liquid/values"
 	"math/rand"
 	"os"
 	"path/filepath"
@@ -128,7 +129,53 @@ func init() {
 	}
 }
 
+// every literal spelling the expression lexer of the tree under test knows (expressions/scanner.rl: "..." => ...),
+// among them the internal statement selectors the tags prepend to their arguments: anywhere an operand can stand
+var lexerWordList []string
+
+var rlWord = regexp.MustCompile(`"((?:[^"\\]|\\.)+)"`)
+
+func lexerWords() []string {
+	if lexerWordList != nil {
+		return lexerWordList
+	}
+	root := os.Getenv("VERIF_REPO")
+	if root == "" {
+		root = "/repo"
+	}
+	words := []string{"%assign ", "{%cycle ", "%loop ", "{%when ", "in", "..", "reversed", "limit:", "cols:", ";"}
+	if data, err := os.ReadFile(filepath.Join(root, "expressions", "scanner.rl")); err == nil {
+		for _, line := range strings.Split(string(data), "\n") {
+			if !strings.Contains(line, "=>") {
+				continue
+			}
+			for _, m := range rlWord.FindAllStringSubmatch(line[:strings.Index(line, "=>")], -1) {
+				words = append(words, m[1])
+			}
+		}
+	}
+	lexerWordList = words
+	return words
+}
+
+// the values the library itself makes (a range) have Go methods too: as properties of a small and of a huge range
+func init() {
+	t := reflect.TypeOf(values.NewRange(1, 2))
+	for i := 0; i < t.NumMethod(); i++ {
+		for _, rg := range []string{"(1..3)", "(0..9223372036854775807)", "(-9223372036854775808..9223372036854775807)"} {
+			fuzzNames = append(fuzzNames, rg+"."+t.Method(i).Name)
+		}
+	}
+}
+
 func fuzzOperand(r *rand.Rand) string {
+	if r.Intn(14) == 0 {
+		w := pick(r, lexerWords())
+		if r.Intn(2) == 0 {
+			w += pick(r, []string{"x = 1", "i in arr", "'a', 'b'", "1", ""})
+		}
+		return w
+	}
 	if r.Intn(3) == 0 {
 		return pick(r, fuzzLits)
 	}
